@@ -1,8 +1,9 @@
 import Katib.Props.C06World
+import Katib.Props.C07
 /-!
 # C07 over whole schedules: a run object disappears only when its Trial is completed
 
-`C07_deleted_only_when_completed`: for every list of simulator operations (no hypothesis on the schedule): if the run object
+`C07_deleted_only_when_completed`: for every list of simulator operations in which nobody deletes Trials: if the run object
 of a Trial existed in some earlier snapshot and does not exist now, then the Trial exists now and carries a terminal
 condition; run-object keys are unique at all times.  (That a run object is not *re-created* after completion needs
 per-kind monotone caches and stays a plan-level theorem: `C07_run_object_guard`.)
@@ -282,11 +283,11 @@ def SInvJ (s : Sim) : Prop :=
   (TInv s.cur ∧ KInv s.cur ∧ JInv s.cur) ∧
   ∀ (i : Nat) (h : World), s.hist[i]? = some h → TInv h ∧ TPast h s.cur ∧ JPast h s.cur
 
-theorem stepWorld_okJ {s : Sim} (hI : SInvJ s) (op : Op) :
+theorem stepWorld_okJ {s : Sim} (hI : SInvJ s) (op : Op) (hop : ∀ k, op ≠ .userDelete k) :
     (TInv (stepWorld s op).1 ∧ KInv (stepWorld s op).1 ∧ JInv (stepWorld s op).1) ∧
     TPast s.cur (stepWorld s op).1 ∧ JPast s.cur (stepWorld s op).1 := by
   have hT : SInvT s := ⟨⟨hI.1.1, hI.1.2.1⟩, fun i h hh => ⟨(hI.2 i h hh).1, (hI.2 i h hh).2.1⟩⟩
-  obtain ⟨⟨t1, t2⟩, t3⟩ := stepWorld_okT hT op
+  obtain ⟨⟨t1, t2⟩, t3⟩ := stepWorld_okT hT op hop
   have hJ := hI.1.2.2
   have hW := hI.1.1
   have same : (stepWorld s op).1.jobs = s.cur.jobs → JPast s.cur (stepWorld s op).1 ∧ JInv (stepWorld s op).1 :=
@@ -371,10 +372,11 @@ theorem stepWorld_okJ {s : Sim} (hI : SInvJ s) (op : Op) :
             have := List.find?_eq_none.1 hnone j (List.mem_filter.2 ⟨hjmem, by simp [hjk, hkk]⟩)
             simp [hjk] at this
         · intro k hk hn; rw [hn] at hk; cases hk
+  | userDelete k' => exact absurd rfl (hop k')
   | noop => exact ⟨⟨t1, t2, hJ⟩, t3, fun k hk hn => by rw [show findJob (stepWorld s .noop).1 k = findJob s.cur k from rfl] at hn; rw [hn] at hk; cases hk⟩
 
-theorem step_invJ {s : Sim} (hI : SInvJ s) (op : Op) : SInvJ (step s op).1 := by
-  obtain ⟨hW, hP, hJ⟩ := stepWorld_okJ hI op
+theorem step_invJ {s : Sim} (hI : SInvJ s) (op : Op) (hop : ∀ k, op ≠ .userDelete k) : SInvJ (step s op).1 := by
+  obtain ⟨hW, hP, hJ⟩ := stepWorld_okJ hI op hop
   unfold step
   refine ⟨hW, ?_⟩
   intro i h hh
@@ -386,10 +388,12 @@ theorem step_invJ {s : Sim} (hI : SInvJ s) (op : Op) : SInvJ (step s op).1 := by
     obtain ⟨h1, h2, h3⟩ := hI.2 i h hh
     exact ⟨h1, TPast.trans h2 hP, JPast.trans h3 hJ hP⟩
 
-theorem run_invJ (ops : List Op) : ∀ {s : Sim}, SInvJ s → SInvJ (run s ops) := by
+theorem run_invJ (ops : List Op) : ∀ {s : Sim}, SInvJ s → (∀ op ∈ ops, ∀ k, op ≠ .userDelete k) → SInvJ (run s ops) := by
   induction ops with
-  | nil => intro s h; exact h
-  | cons op r ih => intro s h; exact ih (step_invJ h op)
+  | nil => intro s h _; exact h
+  | cons op r ih =>
+    intro s h hops
+    exact ih (step_invJ h op (hops op List.mem_cons_self)) (fun o ho => hops o (List.mem_cons_of_mem _ ho))
 
 theorem init_invJ (es : List ExpInit) : SInvJ (Sim.init es) := by
   have hW : TInv (Sim.init es).cur ∧ KInv (Sim.init es).cur ∧ JInv (Sim.init es).cur :=
@@ -407,13 +411,59 @@ theorem init_invJ (es : List ExpInit) : SInvJ (Sim.init es) := by
 /-- **C07_deleted_only_when_completed**: over every schedule a Trial's run object that existed and is gone belongs to a
     Trial that is completed; a Trial has at most one run object at any time (run objects are keyed by the Trial's key and the
     keys are unique). -/
-theorem C07_deleted_only_when_completed (es : List ExpInit) (ops : List Op) :
+theorem C07_deleted_only_when_completed (es : List ExpInit) (ops : List Op) (hops : ∀ op ∈ ops, ∀ k, op ≠ .userDelete k) :
     let s := run (Sim.init es) ops
     (s.cur.jobs.map (·.key)).Nodup ∧
     (∀ (i : Nat) (h : World), s.hist[i]? = some h → ∀ k, (findJob h k).isSome = true → findJob s.cur k = none →
       ∃ tc, findTrial s.cur k = some tc ∧ tCompleted tc = true) := by
   intro s
-  have hI : SInvJ s := run_invJ ops (init_invJ es)
+  have hI : SInvJ s := run_invJ ops (init_invJ es) hops
   exact ⟨hI.1.2.2, fun i h hh => (hI.2 i h hh).2.2⟩
+
+end Katib.Ctl
+
+namespace Katib.Ctl
+open Katib Katib.Exp
+
+/-- C07_release_cleans_db: run the trial reconcile of a Trial that is under deletion and still holds the finalizer, from any
+    (possibly stale) view `v`, against any store `w`, under any fault mask and abort point.  Afterwards either no Trial object
+    was touched at all (the finalizer is still there), or the metrics database holds no row of that Trial: the finalizer is
+    never released, and the Trial never disappears, while its observation log remains. -/
+theorem C07_release_cleans_db (v w : World) (k : Key2) (now : Nat) (f : Faults) (i : Nat) (log : List String) (t : TrialO)
+    (ht : findTrial v k = some t) (hd : t.deleted = true) (hf : t.fin = true) :
+    let o := exec f (trialPlan v k now) w i log
+    o.w.trials = w.trials ∨ (o.w.db.any (fun p => p.1 = k.name) = false) := by
+  intro o
+  have hp := C07_db_before_finalizer v k now t ht hd hf
+  simp only [o, hp, exec]
+  split
+  · left; rfl
+  · simp only [applyCall]
+    split
+    · left; rfl
+    · split
+      · rename_i w' hw
+        right
+        have hdb : w'.db = w.db.filter (fun p => ¬ p.1 = k.name) := by
+          revert hw
+          split
+          · intro h; cases h
+          · split
+            · intro h; cases h
+            · split
+              · intro h; cases h; rfl
+              · intro h; cases h; rfl
+        rw [hdb]
+        simp [List.any_filter]
+      · left; rfl
+
+/-- Non-vacuity of `C07_release_cleans_db`: with no fault the Trial goes away and its two rows with it; with the database
+    call failing the Trial (and its finalizer) stay. -/
+example :
+    let t : TrialO := { key := ⟨"ns", "t1"⟩, exp := "e", fin := true, deleted := true, retain := false, push := false, objType := .maximize, rv := 3 }
+    let w : World := { trials := [t], db := [("t1", []), ("t2", [])] }
+    ((exec {} (trialPlan w t.key 0) w 0 []).w.trials = [] ∧ (exec {} (trialPlan w t.key 0) w 0 []).w.db = [("t2", [])]) ∧
+    ((exec { mask := 1 } (trialPlan w t.key 0) w 0 []).w.trials = [t] ∧ (exec { mask := 1 } (trialPlan w t.key 0) w 0 []).w.db = w.db) := by
+  decide
 
 end Katib.Ctl
